@@ -1748,9 +1748,17 @@ fn emptying_eq(case: &Case, alt: Option<&Alt>) -> bool {
         lo <= hi && (!a.iter().any(|x| *x >= lo && *x <= hi) || !b.iter().any(|x| *x >= lo && *x <= hi))
     };
     let d = |i: usize| -> Vec<i64> { doms[i].iter().map(|v| *v as i64).collect() };
+    // a side without variables is folded to a constant by the smart constructors
+    let konst = |e: &Ex| -> Option<i64> {
+        match e.lin_form() { Some((cs, k)) if cs.is_empty() => Some(k), _ => None }
+    };
     let outside = |t: &CT| match t {
         CT::Cmp(Ex::V(i), Cmp::Eq, Ex::C(k)) | CT::Cmp(Ex::C(k), Cmp::Eq, Ex::V(i)) => !doms[*i].contains(k),
         CT::Cmp(Ex::V(i), Cmp::Eq, Ex::V(j)) => gap(&d(*i), &d(*j)),
+        CT::Cmp(Ex::V(i), Cmp::Eq, e) | CT::Cmp(e, Cmp::Eq, Ex::V(i)) => match konst(e) {
+            Some(k) => !doms[*i].iter().any(|v| *v as i64 == k),
+            None => false,
+        },
         _ => false,
     };
     if alt.is_some_and(|a| a.posts.iter().any(outside)) {
